@@ -133,6 +133,14 @@ func (opp *operationPack) Write(def Definition, repo repository.Repo, parentComm
 		})
 	}
 	if extraTree := opp.makeExtraTree(); len(extraTree) > 0 {
+		// The content of the files has to be in the repository: a tree pointing to a missing
+		// blob stores nothing for the file, and such a commit can't be pushed.
+		for _, entry := range extraTree {
+			if _, err := repo.ReadData(entry.Hash); err != nil {
+				return "", fmt.Errorf("attached file %s is not stored in the repository: %v", entry.Hash, err)
+			}
+		}
+
 		extraTreeHash, err := repo.StoreTree(extraTree)
 		if err != nil {
 			return "", err
